@@ -15,7 +15,8 @@
 EXTENDS AmmoFormats, Json, IOUtils, SequencesExt
 
 CONSTANTS MaxItems,     \* files of 1..MaxItems items
-          MaxSelItems   \* C14 files of 1..MaxSelItems items
+          MaxSelItems,  \* C14 files of 1..MaxSelItems items
+          SelHardLayout \* C14 matrix also under the layout furthest from the plain one (thorough)
 
 VARIABLES fmt, items, st
 vars == <<fmt, items, st>>
@@ -82,14 +83,13 @@ Init == /\ fmt \in Formats
         /\ items \in Files(fmt, MaxItems)
         /\ st = St0
 
-ReadHeader == AtHeader(items, st) /\ st' = DoReadHeader(fmt, items, st)
-ReadBlank  == AtBlank(items, st)  /\ st' = DoReadBlank(fmt, items, st)
-ReadEntry  == AtEntry(items, st)  /\ st' = DoReadEntry(fmt, items, st)
-EOFWrap    == AtEOF(items, st)    /\ st' = DoEOFWrap(fmt, items, st)
+More == Len(st.out) < Want /\ UNCHANGED <<fmt, items>>
+ReadHeader == More /\ AtHeader(items, st) /\ st' = DoReadHeader(fmt, items, st)
+ReadBlank  == More /\ AtBlank(items, st)  /\ st' = DoReadBlank(fmt, items, st)
+ReadEntry  == More /\ AtEntry(items, st)  /\ st' = DoReadEntry(fmt, items, st)
+EOFWrap    == More /\ AtEOF(items, st)    /\ st' = DoEOFWrap(fmt, items, st)
 
-Next == /\ Len(st.out) < Want
-        /\ (ReadHeader \/ ReadBlank \/ ReadEntry \/ EOFWrap)
-        /\ UNCHANGED <<fmt, items>>
+Next == ReadHeader \/ ReadBlank \/ ReadEntry \/ EOFWrap
 
 Spec == Init /\ [][Next]_vars
 
@@ -160,7 +160,12 @@ C07Cases(f) == { [fmt |-> f, items |-> fl, lay |-> l,
                   conf |-> Conf(0, 0, FALSE, <<>>, 2 * NumEntries(fl) + 1)] : fl \in Files(f, MaxItems), l \in LayFor(f) }
 
 PlainLay(f, s) == [crlf |-> FALSE, ws |-> FALSE, sep |-> TRUE, final |-> TRUE, style |-> s]
-C14Lays(f) == IF f = "json" THEN {PlainLay(f, "line"), PlainLay(f, "array")} ELSE {PlainLay(f, "text")}
+\* the layout furthest from the plain one: CRLF, blanks and tabs around every line, no blank line after bodies,
+\* no final newline (what LoadAmmo's single unbounded pass has to cope with at the end of the file)
+HardLay(f, s)  == [crlf |-> TRUE, ws |-> TRUE, sep |-> (f \in {"uri", "json"}), final |-> FALSE, style |-> s]
+C14Lays(f) == LET L(s) == IF SelHardLayout THEN {PlainLay(f, s), HardLay(f, s)} ELSE {PlainLay(f, s)}
+              IN  IF f = "json" THEN L("line") \cup L("array") \cup (IF SelHardLayout THEN {HardLay(f, "pretty")} ELSE {})
+                  ELSE L("text")
 
 C14Cases(f) == { [fmt |-> f, items |-> fl, lay |-> l,
                   conf |-> Conf(lim, pas, pre, chs, TakeFor(f, fl, lim, pas, Range(chs)))] :
